@@ -70,7 +70,7 @@ def anc(commits, c):
     return s
 def run(seed):
     rnd = random.Random(seed)
-    lib, lheads = gen_repo(rnd, 2, ['release/10.20', 'release/10.21', 'master'], pmerge=0.1)
+    lib, lheads = gen_repo(rnd, int(__import__('os').environ.get('LIBBR','2')), ['release/10.20', 'release/10.21', 'master'], pmerge=0.1)
     first = min(lib); lib[first]['tagged'] = True
     app, aheads = gen_repo(rnd, 3, ['release/5.1', 'release/5.2', 'master'])
     # pins: choose lib builds; non-decreasing (by lib commit id) along every path
